@@ -1,4 +1,5 @@
 import DoltVerif.Lemmas.ManFsStep
+import DoltVerif.Lemmas.ManText
 /-!
 C05 — The manifest is replaced atomically and never names a missing table file.
 
@@ -158,6 +159,29 @@ example :
     (let s := Sys.init.run [.jAcquire 0, .land 1, .spawnJournalWriter 0 0 { lock := 1, root := 1, gcGen := 0, specs := [1] } false,
       .jw 0, .jw 0, .jw 0, .jw 0, .jw 0, .jw 0, .jw 0, .jw 0, .jw 0, .jw 0]
      s.fs.vis.specs = [1] ∧ s.fs.vis.tables = [1] ∧ s.lock = some 0) := by decide
+
+/-! ### the manifest text format -/
+
+/-- `manifest_text_roundtrip`: `parseManifest (writeManifest m) = m` for the v5 text format, for every manifest whose
+nbfVers is non-empty and contains no ':', whose lock (non-zero), root and gcGen and spec names are 32-character base32
+strings, given a decimal codec of the chunk counts that round-trips and emits no ':' (strconv.FormatUint/ParseUint; a
+parameter).  Field order, separator and slice positions are tied to the source by `Tie.ManifestSteps.text_model`. -/
+theorem manifest_text_roundtrip (cd : ManText.DecCodec) (hc : ManText.Codec.OK cd) (m : ManText.Man) (hm : m.Valid) :
+    ∃ text, ManText.write cd m = .ok text ∧ ManText.parse cd text = .ok m :=
+  ManText.parse_write cd hc m hm
+
+/-- `strings.Split ∘ strings.Join = id` on fields without the separator -/
+theorem manifest_split_join (fs : List ManText.Str) (h : fs ≠ []) (hs : ∀ f ∈ fs, ManText.sep ∉ f) :
+    ManText.split (ManText.join fs) = fs := ManText.split_join fs h hs
+
+-- a concrete manifest through a toy (unary) count codec: the hypotheses are satisfiable and the functions compute
+example :
+    let cd : ManText.DecCodec := { enc := fun n => List.replicate n 'x', dec := fun s => if s.all (· == 'x') then some s.length else none }
+    let h (c : Char) : ManText.Str := List.replicate 32 c
+    let m : ManText.Man := { nbfVers := "__DOLT__".toList, lock := h 'a', root := h 'b', gcGen := h '0', specs := [{ name := h 'c', count := 3 }] }
+    (match ManText.write cd m with
+     | .ok t => (match ManText.parse cd t with | .ok m' => decide (m' = m) | .error _ => false)
+     | .error _ => false) = true := by decide
 
 /-! ### what the hypotheses exclude (both decided by the model; see design/C05.md for the replays) -/
 
